@@ -270,6 +270,8 @@ func run(r *harness.Run) {
 		{"state_default", `50`}, {"users", `{"@u:a.org":100,"@é<b>:b.org":0}`}, {"users_default", `null`}, {"invite", `50`}, {"notifications", `{"room":50}`},
 		{"aliases", `["#a:a.org","#<&> :b"]`}, {"history_visibility", `"shared"`}, {"redacts", `"$x:a.org"`},
 		{"junk", `"j"`}, {"body", `{"a":{"b":[1,"x",null,true]}}`}, {"displayname", `"<script>é\u0001"`}, {"signed", `{"x":1}`},
+		// a flat key spelt like the keep-list's notation for a nested one: not the nested key, an unknown key
+		{"third_party_invite.signed", `"flat"`},
 	}
 	alt := map[string][]string{"membership": {`null`}, "users": {`null`}, "allow": {`null`}, "third_party_invite": {`{"signed":null}`, `{"display_name":"d"}`, `{}`, `[]`, `{"signed":{}}`}, "events": {`{}`}, "ban": {`"50"`}, "creator": {`{"a":1}`}}
 	K := r.Pick(3, 4)
